@@ -185,7 +185,7 @@ def lab(e):
 
 obs, obs_labels = [], []
 nevents = 0
-MVCAP = 6000 if ck.thorough() else 400     # events of the MethodValue phase kept per build (a prefix of a run is a run)
+MVCAP = 1200 if ck.thorough() else 400     # events of the MethodValue phase kept per build (a prefix of a run is a run)
 for c in cases:
     evs = c.get("Events") or []
     mv = c.get("MVStart") or len(evs)
@@ -203,14 +203,14 @@ Require Import Verif.Model.C18 Verif.Model.C18_Check.
 Open Scope N_scope.
 """
 shards = {}
-SH = 12
+SH = 48 if ck.thorough() else 12
 per = max(1, (len(obs) + SH - 1) // SH)
 for i in range(0, len(obs), per):
     shards["ev%02d" % (i // per)] = HEAD + "Definition cases : list obs := %s.\n" % coq_list(obs[i:i + per]) + \
         "Definition M := Eval vm_compute in mismatches cases.\nDefinition V := Eval vm_compute in violations cases.\n" \
         "Definition N := Eval vm_compute in nontrivial_waits cases.\nPrint M.\nPrint V.\nPrint N.\n"
 ck.log("replaying", nevents, "events of", len(obs), "logs in Coq")
-results = ck.coq_cases_parallel(shards, timeout=3000, jobs=12)
+results = ck.coq_cases_parallel(shards, timeout=(14400 if ck.thorough() else 3000), jobs=12)
 ck.log("replay done")
 nontrivial_waits = 0
 for name in sorted(shards):
@@ -262,7 +262,7 @@ else:
         env["GORACE"] = "halt_on_error=0 exitcode=66"
         cargs = [rexe, "-child", scen, "-seed", str(ck.seed + i), "-progs", progs, "-reps", reps, "-modes", ("2" if ck.thorough() else "1"), "-repo", REPO,
                  "-out", os.path.join(work, "race%d.json" % i)]
-        rc, o = sh(cargs, timeout=(1500 if ck.thorough() else 500), env=env)   # a hang is a failure (rc 124)
+        rc, o = sh(cargs, timeout=(2400 if ck.thorough() else 900), env=env)   # a hang is a failure (rc 124)
         nrace = o.count("WARNING: DATA RACE")
         race_log.append({"scenario": scen, "rc": rc, "races": nrace})
         ck.log("race run", scen, "rc", rc, "races", nrace)
